@@ -192,6 +192,14 @@ public:
             return PointT {0.0, 0.0, 0.0};
         }
 
+        if(_hfh.subidx() == 1) {
+            // The two sides of a face have opposite normals. The odd side lists
+            // the halfedges in reverse, i.e. its first two halfedges meet in a
+            // different corner, which gives another normal for a non-planar or
+            // non-convex face.
+            return -normal(TopologyKernelT::opposite_halfface_handle(_hfh));
+        }
+
         const std::vector<HalfEdgeHandle>& halfedges = TopologyKernelT::halfface(_hfh).halfedges();
         std::vector<HalfEdgeHandle>::const_iterator he_it = halfedges.begin();
 
